@@ -202,10 +202,11 @@ CONSTRAINTS = [
     "ULT(x, 3)", "SGT(x, BVV(13, 4))", "Or(x == 1, x == 2)", "x == 5", "x != 5", "ZeroExt(1, y) == x + 1",
     "SLT(y, 0)", "z == y", "Or(And(x == 1, y == 5), And(x == 2, y == 0))", "b", "Not(b)", "If(b, x, ZeroExt(1, y)) == 3",
     "UGE(x, 8)", "(x & 1) == 0", "ULT(z, 2)", "SGE(y ^ z, 0)", "y + z == 7", "false", "true", "x + ZeroExt(1, y) == 9",
-    "y == 6", "ULE(x, 11)", "SLE(x, 2)", "Or(b, x == 7)",
+    "y == 6", "ULE(x, 11)", "SLE(x, 2)", "Or(b, x == 7)", "Or(b, y == 0)", "Or(Not(b), z == 1)",
 ]
 SMALL_CONSTRAINTS = ["ULT(x, 3)", "Or(x == 1, x == 2)", "x == 5", "SLT(y, 0)", "ZeroExt(1, y) == x + 1", "UGE(x, 8)"]
-EXPRS = ["x", "y", "z", "x + ZeroExt(1, y)", "x & 3", "If(b, x, ZeroExt(1, y))", "y ^ z", "x - 1", "BVV(3, 4)"]
+EXPRS = ["x", "y", "z", "x + ZeroExt(1, y)", "x & 3", "If(b, x, ZeroExt(1, y))", "y ^ z", "x - 1", "BVV(3, 4)", "If(b, y, y + 1)",
+         "If(ULT(x, 8), z, y)"]
 SMALL_EXPRS = ["x", "y", "x + ZeroExt(1, y)"]
 BOOLS = ["b", "ULT(x, 3)", "x == 5", "Or(x == 1, x == 2)", "SLT(y, 0)", "ULE(x, 15)", "Not(b)", "And(ULT(x, 3), UGE(x, 8))"]
 
